@@ -99,12 +99,17 @@ def rng_for(seed, *salt):
 HELD, VIOLATED, KNOWN, INCONCLUSIVE, SKIPPED = 'held', 'violated', 'known', 'inconclusive', 'skipped'
 
 
+PARTIAL = None      # when a list: every result created is also remembered here (see run.worker)
+
+
 def res(status, case, monitor, detail=None, **extra):
     """One oracle evaluation.  `case` is a JSON-able description (the replay recipe)."""
     r = {'status': status, 'case': case, 'monitor': monitor}
     if detail is not None:
         r['detail'] = detail
     r.update(extra)
+    if PARTIAL is not None:
+        PARTIAL.append(r)
     return r
 
 
